@@ -219,6 +219,22 @@ def _work(st, job):
         for s, ln in zip(items, lines):
             res.seen("fromhex" + s)
             check_fromhex(res, s, ln, {"op": "float", "line": "fromhex " + q(s)})
+    elif kind == "spec":
+        # the same three renderings as their two callers produce them: FormatSpec ("fmt" op) and the printf-style CFormatSpec ("cfmt" op)
+        reqs = ["%s\tfloat\t%d" % (q(sp), b) for b, sp, _ in items]
+        creqs = ["t\t%s\tf:%d" % (q(ct), b) for b, _, ct in items]
+        for (b, sp, ct), ln, cl, rq, crq in zip(items, h.lines("fmt", reqs), h.lines("cfmt", creqs), reqs, creqs):
+            f = fb(b)
+            res.seen(rq)
+            res.seen(crq)
+            for op, text, line, want, req in (("fmt", sp, ln, format(f, sp), rq), ("cfmt", ct, cl, ct % f, crq)):
+                parts = line.split("\t")
+                got = bytes.fromhex(parts[1]).decode("utf-8", "replace") if parts[0] == "OK" and len(parts) > 1 else None
+                if got != want:
+                    res.add("unlisted:panic" if got is None and parts[0] not in ("ERR", "PARSEERR") else "unlisted:%s-caller-differs" % op,
+                            {"value": repr(f), "bits": b, "template": text, "got": got if got is not None else line[:200], "python": want}, {"op": op, "line": req})
+        if items:
+            res.sample({"spec": items[0][1], "cformat": items[0][2], "value": repr(fb(items[0][0]))})
     else:
         reqs = ["fmt %d %d %d %d" % it for it in items]
         lines = h.lines("float", reqs)
@@ -333,17 +349,32 @@ def run(res):
         for p in (range(0, 21) if thorough else (0, 1, 2, 3, 6, 10, 17, 20)):
             for alt in (0, 1):
                 fm.append((b, p, alt, rng.randrange(2)))
-    jobs = [("f2s", x) for x in tw.batches(dbl, 4000)] + [("s2f", x) for x in tw.batches(strs, 6000)] + [("fromhex", x) for x in tw.batches(hexstrings(res, dbl), 4000)] + [("fmt", x) for x in tw.batches(fm, 8000)]
+    # ... and through the two callers, where the sign, the specials and the '#' flag are the caller's business
+    sp = []
+    specials = [0x7FF8000000000000, 0xFFF8000000000000, 0x7FF0000000000001, 0xFFF4000000000000, 0x7FF0000000000000, 0xFFF0000000000000, 0, 1 << 63]
+    pool = specials + [b ^ (rng.randrange(2) << 63) for b in mags[:(3000 if thorough else 400)]]
+    for b in pool:
+        for t in "fegFEG":
+            for p in ((0, 1, 2, 6, 17) if b not in specials and not thorough else (0, 1, 2, 3, 6, 10, 17, 20)):
+                sign = rng.choice(["", "+", " ", "-"])
+                alt = rng.choice(["", "#"])
+                sp.append((b, "%s%s.%d%s" % (sign, alt, p, t), "%%%s%s.%d%s" % (sign, alt, p, t)))
+        for sign in ("", "+", " ", "-"):
+            sp.append((b, sign + ".3f", "%" + sign + "f"))
+            sp.append((b, sign + "e", "%" + sign + "#g"))
+    jobs = [("spec", x) for x in tw.batches(sp, 4000)]
+    jobs += [("f2s", x) for x in tw.batches(dbl, 4000)] + [("s2f", x) for x in tw.batches(strs, 6000)] + [("fromhex", x) for x in tw.batches(hexstrings(res, dbl), 4000)] + [("fmt", x) for x in tw.batches(fm, 8000)]
     parts = core.pmap(_work, jobs, init=tw.init_state, initargs=(bins,))
     for p in parts:
         res.merge(p)
     res.cover["doubles"] = len(dbl)
     res.cover["strings"] = len(strs)
     res.cover["format_calls"] = len(fm)
+    res.cover["caller_format_calls"] = 2 * len(sp)
     res.rule = ("doubles: every binary exponent (every 3rd in quick) +-1 ulp, powers of ten and two +-2 ulp, small integers/halves/tenths, extremes, seeded random "
                 "bit patterns; strings: all over {0,1,9,_,.,e,E,+,-,space,i,n,f,a} to length 4, special names in all cases with the six ASCII whitespace "
                 "characters around, underscores at every position, random to 24; fixed/exponent/general formatting at precisions 0..20, both cases, "
-                "alternate form; a case is one request, distinct by hash")
+                "alternate form, and the same through FormatSpec and the printf-style specifier with every sign option on signed values, both NaN signs and infinities; a case is one request, distinct by hash")
     res.assumptions = ["Python 3.11 float/repr/hex/% formatting as reference (IEEE-754 correctly rounded)"]
 
 
